@@ -15,7 +15,7 @@ RULE = ("E1: every labelled DAG up to the node bound x name style (ints incl. 0,
         "overrides on all stars with <=3 features.  oracle: enumeration of all simple trails. non-trivial = distinct "
         "(graph, start, observed) where observing changes the reachable set")
 BOUNDS = {"quick": "all DAGs n<=4 (572), 3 name styles, 2 classes, latent subsets of size<=2 (all subsets for n<=3)",
-          "thorough": "quick + all 29281 DAGs on 5 nodes (int names, DAG class, latent subsets of size<=1)"}
+          "thorough": "quick + all 29281 DAGs on 5 nodes (int names, DAG class, latent subsets of size<=1) + all 32768 order-respecting DAGs on 6 nodes"}
 EXHAUSTIVE = {"quick": True, "thorough": True}
 ASSUMPTIONS = ["start node not in the observed set (the definition leaves that case open)",
                "node names are ints or strings (tuples are ambiguous with 'list of nodes' arguments)"]
@@ -36,6 +36,9 @@ def groups(tier, seed):
         m = 29281
         for i in range(0, m, 300):
             out.append({"n": 5, "lo": i, "hi": min(i + 300, m), "style": "int", "cls": "DAG"})
+        # six nodes: every DAG whose edges respect 0<1<..<5 (2^15 edge sets: every unlabelled 6-node DAG in some labelling)
+        for i in range(0, 1 << 15, 128):
+            out.append({"n": 6, "lo": i, "hi": i + 128, "style": "int", "cls": "DAG", "codes": True})
     return out
 
 
@@ -69,6 +72,13 @@ def run_group(g, tier):
         _naive(st)
         return st
     n = g["n"]
+    if g.get("codes"):
+        from itertools import combinations
+
+        p6 = list(combinations(range(6), 2))
+        for code in range(g["lo"], g["hi"]):
+            _one(st, {"n": 6, "edges": [list(p) for i, p in enumerate(p6) if code >> i & 1], "style": g["style"], "cls": g["cls"], "latents": []})
+        return st
     dags = _dags(n)
     for i in range(g["lo"], g["hi"]):
         edges = dags[i]
